@@ -333,6 +333,9 @@ type TTagMix struct {
 	I32 int64     `parquet:"i32,int(32)"`
 	I   int       `parquet:"i,int(32)"`
 	OT  time.Time `parquet:"ot,optional,timestamp(millisecond)"`
+	W32 int32     `parquet:"w32,int(64)"`
+	UW  uint32    `parquet:"uw,uint(64)"`
+	OS  string    `parquet:"os,optional"`
 }
 
 func init() { reg[TTagMix]("tagmix") }
